@@ -30,7 +30,8 @@ RULE = ("Finite fault space over 6 harness-built feature-covering seed documents
         "events must stay below 50x the undamaged seed + 2e6.  Quick = seeded sample of the space, thorough = all of it. "
         "Non-trivial = the object holding the faulted site was actually fetched by getobj (truncations: any object "
         "fetched); distinct by (seed, site, kind).")
-ASSUMPTIONS = ["work inside C extensions (zlib, re, AES) is not counted; no fault kind enlarges a payload",
+ASSUMPTIONS = ["image export (output_dir) is exercised for the seeds that contain images; the ImportError that asks for the optional Pillow package is tolerated like AssertionError",
+               "work inside C extensions (zlib, re, AES) is not counted; no fault kind enlarges a payload",
                "AssertionError is tolerated because fuzzing/*.py in the repository states that contract"]
 
 REPO = os.environ.get("VERIF_REPO", "/repo")
@@ -443,7 +444,7 @@ def _patch_getobj():
     _PATCHED = True
 
 
-def _entries(data):
+def _entries(data, images=False):
     from pdfminer.high_level import extract_pages, extract_text, extract_text_to_fp
 
     def e_text():
@@ -457,12 +458,33 @@ def _entries(data):
         extract_text_to_fp(io.BytesIO(data), fp, output_type="xml", codec=None)
         return len(fp.getvalue())
 
-    return [("extract_text", e_text), ("extract_pages", e_pages), ("extract_text_to_fp(xml)", e_xml)]
+    def e_images():
+        # image export is an option of the same entry point; only documents that mention an image are worth the I/O
+        import shutil
+        import tempfile
+
+        base = "/dev/shm" if os.path.isdir("/dev/shm") and os.access("/dev/shm", os.W_OK) else None
+        d = tempfile.mkdtemp(prefix="c13img-", dir=base)
+        try:
+            fp = io.StringIO()
+            extract_text_to_fp(io.BytesIO(data), fp, output_type="text", codec=None, output_dir=d)
+            return len(os.listdir(d))
+        finally:
+            shutil.rmtree(d, ignore_errors=True)
+
+    out = [("extract_text", e_text), ("extract_pages", e_pages), ("extract_text_to_fp(xml)", e_xml)]
+    if images:
+        out.append(("extract_text_to_fp(output_dir)", e_images))
+    return out
 
 
-def run_entries(data, limits=None):
+def has_images(data):
+    return b"Image" in data or b" BI" in data or b"\nBI" in data
+
+
+def run_entries(data, limits=None, images=False):
     out = []
-    for i, (name, fn) in enumerate(_entries(data)):
+    for i, (name, fn) in enumerate(_entries(data, images)):
         r, exc, n = METER.run(fn, None if limits is None else limits[i])
         out.append((name, exc, n))
     return out
@@ -472,9 +494,12 @@ _BASE = {}
 
 
 def base_work(key, data):
+    """Events of every entry point on the undamaged document; image export is exercised for documents with images (the
+    decision is taken on the undamaged document, so that limits and results line up)."""
     if key not in _BASE:
-        run_entries(data)  # warm-up (imports, CMap caches)
-        _BASE[key] = [n for _, _, n in run_entries(data)]
+        img = has_images(data)
+        run_entries(data, None, img)  # warm-up (imports, CMap caches)
+        _BASE[key] = [n for _, _, n in run_entries(data, None, img)]
     return _BASE[key]
 
 
@@ -513,7 +538,7 @@ def run_case(case):
             return Outcome(["noop"], False)
     limits = [50 * b + 2_000_000 for b in base]
     FETCHED.clear()
-    outs = run_entries(data, limits)
+    outs = run_entries(data, limits, len(base) > 3)
     fetched = set(FETCHED)
     classes = ["fault:" + case["fault"]["t"], "seed:" + case["seed"].split("/")[-1]]
     viol = []
@@ -524,6 +549,10 @@ def run_case(case):
             classes.append("raises-PSException")
         elif isinstance(exc, AssertionError):
             classes.append("raises-AssertionError(tolerated)")
+        elif isinstance(exc, ImportError) and "Pillow" in str(exc):
+            # the documented message for the optional image dependency, which this sandbox does not have: a property of
+            # the environment, not an internal error
+            classes.append("raises-ImportError(Pillow not installed)")
         elif isinstance(exc, WorkBudgetExceeded):
             viol.append(("WorkBudgetExceeded@%s" % name, "%s: work exceeded %d events (undamaged seed: %d)" % (name, limits[0], base[0])))
         else:
